@@ -5,6 +5,7 @@ runs the real KeyGen/EDBSetup/TokenGen/Search and compares with the plaintext da
 taken before setup (the shadow copy, so a setup that mutates its input cannot fool the comparison).
 """
 import copy
+import json
 
 from vlib import gen, sse
 from vlib.common import exc_site
@@ -16,10 +17,19 @@ def run(spec, acc, ctx, mode):
     scheme = spec["scheme"]
     short = gen.SHORT[scheme]
     rng = ctx.rng
+    objects = {}
     for cid, cfg, cls, db, info in sse.iter_cases(spec, ctx):
         shadow = copy.deepcopy(db)
         cp = gen.caps(scheme, cfg)
-        st = sse.Setup(scheme, cfg, db)
+        # every other case re-uses the scheme object of an earlier case with the identical configuration
+        ck = json.dumps(cfg, sort_keys=True, default=str)
+        reuse = objects.get(ck) if rng.random() < 0.5 else None
+        st = sse.Setup(scheme, cfg, db, sse_obj=reuse)
+        if st.error is None:
+            objects[ck] = st.sse
+            if len(objects) > 64:
+                objects.pop(next(iter(objects)))
+        acc.count("scheme_objects.reused" if reuse is not None else "scheme_objects.fresh")
         acc.count("cases")
         acc.count(f"cases.{short}")
         acc.add("classes." + short, cls)
@@ -140,6 +150,7 @@ def finish(m, tier, mode, min_searches):
         "searches_compared": c.get(f"searches.{mode}", 0),
         "pi2lev_cases_seen": sorted(m["sets"].get("pi2lev_cases", [])),
         "insitu_contract_evaluations": {k: v for k, v in c.items() if k.startswith("insitu.")},
+        "scheme_objects": {"fresh": c.get("scheme_objects.fresh", 0), "reused_from_an_earlier_case": c.get("scheme_objects.reused", 0)},
     }
     if mode == "present":
         cov["postings_compared"] = c.get("postings_compared", 0)
